@@ -303,7 +303,56 @@ def rule_R2_evaluated(ctx, prj) -> bool:
     return True
 
 
+def rule_R3_sequences(ctx, prj):
+    """Balanced observed from outside, whatever it keeps inside: an instance built by its constructor is fed every sequence over
+    {left, right, other} up to length 5; after each accepted token accept()'s answer and is_open() are those of the nesting depth"""
+    from ..absint import MiniInterp, PyRaise, Unknown, make_token
+    import itertools
+    bal_c = prj.cls("codelimit.common.token_matching.predicate.Balanced:Balanced")
+    acc_m = prj.func(bal_c.find_method("accept").qual, raw=True)
+    open_m = prj.func(bal_c.find_method("is_open").qual, raw=True)
+    it = MiniInterp(prj, max_steps=3_000_000, max_depth=60)
+    toks = {"L": make_token(it, prj, "Punctuation", "(", 1, 1), "R": make_token(it, prj, "Punctuation", ")", 1, 2), "X": make_token(it, prj, "Name", "x", 1, 3)}
+    n = 0
+    for k in range(1, 6):
+        for seq in itertools.product("LRX", repeat=k):
+            b = it.construct(bal_c, ["(", ")"], {}, None, acc_m)
+            depth = 0
+            for i, c in enumerate(seq):
+                want = (c == "L") if depth == 0 else True
+                got = it.truth(it.call(acc_m, [toks[c]], {}, b))
+                n += 1
+                if got != want:
+                    return n, f"after {' '.join(seq[:i]) or 'nothing'} (depth {depth}) accept({c}) is {got}; required {want}"
+                if not want:
+                    break
+                depth += 1 if c == "L" else -1 if c == "R" else 0
+                op = it.truth(it.call(open_m, [], {}, b))
+                if op != (depth > 0):
+                    return n, f"after {' '.join(seq[:i + 1])} (depth {depth}) is_open() is {op}; required {depth > 0}"
+    return n, None
+
+
 def rule_R3(ctx, prj):
+    try:
+        return rule_R3_model(ctx, prj)
+    except AnalysisError as e:
+        from ..absint import PyRaise, Unknown
+        bal = prj.func("codelimit.common.token_matching.predicate.Balanced:Balanced.accept")
+        try:
+            n, bad = rule_R3_sequences(ctx, prj)
+        except (Unknown, PyRaise) as e2:
+            raise AnalysisError(f"{e}; and not evaluable on token sequences either ({e2})")
+        ctx.floors.pop("R3", None)
+        ctx.info(f"R3: the transfer table could not be read off Balanced's fields ({e}); decided on token sequences")
+        if bad:
+            ctx.viol("R3", "Balanced.accept/table", bal.site(), f"Balanced('(', ')') fed L = `(`, R = `)`, X = another token: {bad}")
+        else:
+            ctx.ok("R3", bal.site(), f"Balanced on every sequence over (left, right, other) up to length 5 ({n} steps): opens on left, rejects right/other at depth 0, "
+                                    f"accepts everything inside, open exactly while the depth is positive")
+
+
+def rule_R3_model(ctx, prj):
     ctx.rule("R3", "Balanced.accept/is_open over depth {0,1,2,3} x token {left, right, other}: opens on left, rejects "
                    "right/other at depth 0, accepts everything while depth >= 1 with depth +1 / -1 / unchanged, and is "
                    "open exactly while depth > 0 (so a group never ends before nesting returns to zero)", floor=12)
